@@ -1136,6 +1136,12 @@ func (g *gen) stmt(sc *scope, d int) string {
 		}
 		return s + indent(g.block(inner, 1+g.intn(3, "shn"), d-1), 1) + "\n}"
 	case 28: // buffered channel round trip
+		if g.chance(40, "chantypes") { // channel types in expression context, nested and directed
+			g.f("chan-types-in-expr")
+			cc := g.fresh("cc")
+			return fmt.Sprintf("{\n\t%s := make(chan chan int, 1)\n\tro := make(<-chan chan int)\n\tso := make(chan<- <-chan int, 2)\n\tvar conv <-chan int = (<-chan int)(make(chan int))\n\tvar fn func(<-chan int) chan<- int\n\t_, _, _, _ = ro, so, conv, fn\n\tinner := make(chan int, 1)\n\tinner <- %s\n\t%s <- inner\n\tfmt.Println(%q, <-<-%s, len(%s), cap(so), ro == nil, conv != nil)\n}",
+				cc, g.expr(sc, tInt, 1), cc, g.tag(), cc, cc)
+		}
 		g.f("chan")
 		ch, v := g.fresh("ch"), g.fresh("e")
 		inner := &scope{parent: sc, vars: []variable{{name: v, t: tInt}}}
